@@ -154,7 +154,7 @@ func (e *Engine) verifyAll(fns []*ssa.Function, dir string, perMs int, solvers [
 		}(i, f)
 	}
 	wg.Wait()
-	// Obligations left undecided (not refuted) are tried once more, one VC at a time and with three times the budget:
+	// Obligations left undecided (not refuted) are tried once more, one VC at a time and with twice the budget (first two solvers):
 	// a solver timeout under load must not be reported as a violation.
 	for i, r := range results {
 		retry := false
@@ -169,7 +169,11 @@ func (e *Engine) verifyAll(fns []*ssa.Function, dir string, perMs int, solvers [
 					o.Result, o.Solver = "", ""
 				}
 			}
-			r2 := e.Solve(r.VC, dir, perMs*3, solvers, false)
+			rs := solvers
+			if len(rs) > 2 {
+				rs = rs[:2]
+			}
+			r2 := e.Solve(r.VC, dir, perMs*2, rs, false)
 			r2.Secs += r.Secs
 			if r2.Smoke == "" {
 				r2.Smoke = r.Smoke
